@@ -94,31 +94,64 @@ class SuperVal:
         self.obj = obj
 
 
-class SList:
-    """python list with identity (per path); items are engine values."""
-    __slots__ = ("items",)
+class PBase:
+    """Opaque (arbitrary, unknown) list prefix: a name and a symbolic length >= 0."""
+    __slots__ = ("name", "length")
 
-    def __init__(self, items=()):
-        self.items = list(items)
+    def __init__(self, name, length):
+        self.name = name
+        self.length = length
 
     def __repr__(self):
-        return "SList(%r)" % (self.items,)
+        return "PBase(%s)" % self.name
+
+
+class SList:
+    """python list with identity (per path); items are engine values.  With `base` set the list is
+    base ++ items where base is an arbitrary unknown list (history abstraction)."""
+    __slots__ = ("items", "base")
+
+    def __init__(self, items=(), base=None):
+        self.items = list(items)
+        self.base = base
+
+    def __repr__(self):
+        return "SList(%s%r)" % ((self.base.name + " ++ ") if self.base else "", self.items)
 
     def py_truth(self):
+        if self.base is not None:
+            return Or(compare(">", self.base.length, 0), len(self.items) > 0)
         return len(self.items) > 0
+
+    def snapshot(self):
+        return SList(self.items, self.base)
+
+    def __len__(self):
+        if self.base is not None:
+            raise Unsupported("native len of a list with unknown prefix")
+        return len(self.items)
+
+
+ABSENT = V.ABSENT
 
 
 class SDict:
-    """python dict with concrete (hashable native) keys, insertion ordered."""
-    __slots__ = ("d",)
+    """python dict with concrete (hashable native) keys, insertion ordered.  With `base` set it is an
+    arbitrary unknown map (int keys) overridden by `sym` = [(key term, value | ABSENT)] and `d`."""
+    __slots__ = ("d", "base", "sym", "valfactory")
 
-    def __init__(self, d=None):
+    def __init__(self, d=None, base=None, valfactory=None):
         self.d = dict(d or {})
+        self.base = base
+        self.sym = []
+        self.valfactory = valfactory
 
     def __repr__(self):
-        return "SDict(%r)" % (self.d,)
+        return "SDict(%s%r%r)" % ((self.base + " + ") if self.base else "", self.sym, self.d)
 
     def py_truth(self):
+        if self.base is not None:
+            raise Unsupported("truth of opaque dict")
         return len(self.d) > 0
 
 
@@ -150,10 +183,15 @@ class Interp:
         self.max_steps = 400000
         self.loop_bound = 4096
         self.stubs = {}               # (module, qualname) -> callable(interp, fv, args, kwargs)
+        self.loop_cuts = {}           # function qualname -> iterations after which the path is cut (induction)
         self.call_trace = []
 
     # ------------------------------------------------------------------ lifting real objects
     def lift(self, v):
+        tv = type(v)
+        if self.loader.interpretable(getattr(tv, "__module__", None)) and not issubclass(tv, (type, BaseException)) \
+                and tv.__name__ == "_UninitializedNetwork":
+            return RealObj(v)       # hostile __getattribute__: never touch its attributes
         if v is None or isinstance(v, (bool, int, float, str)):
             return v
         if isinstance(v, (SInt, SBool, SBytes, LBytes, SObj, SList, SDict, FuncVal, BoundMethod, Builtin,
@@ -633,11 +671,17 @@ class Interp:
 
     def s_While(self, node, fr):
         n = 0
+        cut = self.loop_cuts.get(fr.fd.qualname)
         while True:
             if not truth(self.eval(node.test, fr)):
                 self.exec_block(node.orelse, fr)
                 return
             n += 1
+            if cut is not None and n > cut:
+                # inductive cut declared by the contract: the state at the loop head is again a member of the
+                # contract's pre-state family, so later iterations are covered by the first `cut` ones
+                self.ctx.notes.append("loop of %s cut after %d iteration(s)" % (fr.fd.qualname, cut))
+                raise PathAbort()
             if n > self.loop_bound:
                 raise Unsupported("while loop exceeds unrolling budget (needs invariant)")
             try:
@@ -650,10 +694,14 @@ class Interp:
     def iterate(self, it):
         """engine iterable -> python list of items (concrete length only)."""
         if isinstance(it, SList):
+            if it.base is not None:
+                raise Unsupported("iteration over a list with unknown prefix (only `for x in L: x(args)` is summarised)")
             return list(it.items)
         if isinstance(it, (tuple, list)):
             return list(it)
         if isinstance(it, SDict):
+            if it.base is not None:
+                raise Unsupported("iteration over opaque dict")
             return list(it.d.keys())
         if isinstance(it, range):
             return list(it)
@@ -680,7 +728,27 @@ class Interp:
         raise Unsupported("iteration over %r" % (type(it).__name__,))
 
     def s_For(self, node, fr):
-        items = self.iterate(self.eval(node.iter, fr))
+        itv = self.eval(node.iter, fr)
+        if isinstance(itv, SList) and itv.base is not None:
+            # summarised pattern: `for cb in L: cb(<loop-invariant args>)` over an unknown prefix:
+            # every element of the prefix is called once, in order (assumption A5: callbacks do not re-enter)
+            b = node.body
+            ok = (len(b) == 1 and isinstance(b[0], ast.Expr) and isinstance(b[0].value, ast.Call)
+                  and isinstance(node.target, ast.Name) and isinstance(b[0].value.func, ast.Name)
+                  and b[0].value.func.id == node.target.id and not node.orelse
+                  and not any(isinstance(n, ast.Name) and n.id == node.target.id
+                              for a in list(b[0].value.args) + [k.value for k in b[0].value.keywords]
+                              for n in ast.walk(a)))
+            if not ok:
+                raise Unsupported("loop over a list with unknown prefix is not of the form `for f in L: f(args)`")
+            call = b[0].value
+            args = tuple(self.eval(a, fr) for a in call.args)
+            if call.keywords:
+                raise Unsupported("keywords in summarised callback loop")
+            self.ctx.emit("foreach-call", itv.base.name, args)
+            items = list(itv.items)
+        else:
+            items = self.iterate(itv)
         for x in items:
             self.assign(node.target, x, fr)
             try:
@@ -1040,6 +1108,11 @@ class Interp:
                 return False
             return And([truth_val(self.equals(x, y)) for x, y in zip(a, b)])
         if isinstance(a, SList) and isinstance(b, SList):
+            if (a.base is None) != (b.base is None) or (a.base is not None and a.base.name != b.base.name):
+                if a.base is None and b.base is None:
+                    pass
+                else:
+                    raise Unsupported("equality of lists with different unknown prefixes")
             if len(a.items) != len(b.items):
                 return False
             return And([truth_val(self.equals(x, y)) for x, y in zip(a.items, b.items)])
@@ -1083,8 +1156,13 @@ class Interp:
     def contains(self, container, x):
         if isinstance(container, (tuple, SList, frozenset, set, list)):
             items = container.items if isinstance(container, SList) else list(container)
-            return Or([truth_val(self.equals(x, y)) for y in items])
+            r = Or([truth_val(self.equals(x, y)) for y in items])
+            if isinstance(container, SList) and container.base is not None:
+                r = Or(self.opaque_contains(container.base, x), r)
+            return r
         if isinstance(container, SDict):
+            if container.base is not None:
+                return self.pdict_lookup(container, x) is not ABSENT
             if is_sym(x):
                 return Or([compare("==", x, k) for k in container.d if isinstance(k, int)])
             if isinstance(x, (SBytes, SObj, SList)):
@@ -1334,6 +1412,13 @@ class Interp:
         raise Unsupported("subscript of %r" % (type(o).__name__,))
 
     def dict_get(self, o, k, default, raise_missing):
+        if o.base is not None:
+            r = self.pdict_lookup(o, k)
+            if r is ABSENT:
+                if raise_missing:
+                    raise PyRaise(SObj(KeyError, {"args": (k,)}))
+                return default
+            return r
         if is_sym(k):
             if isinstance(k, SBool):
                 k = self.ctx.branch(k.t)
@@ -1401,6 +1486,9 @@ class Interp:
             o.items[i] = v
             return
         if isinstance(o, SDict):
+            if o.base is not None:
+                self.pdict_store(o, k, v)
+                return
             if is_sym(k):
                 keys = [kk for kk in o.d if isinstance(kk, int) and not isinstance(kk, bool)]
                 for kk in keys:
@@ -1445,6 +1533,11 @@ class Interp:
             del o.items[self.norm_index(k, len(o.items))]
             return
         if isinstance(o, SDict):
+            if o.base is not None:
+                if self.pdict_lookup(o, k) is ABSENT:
+                    raise PyRaise(SObj(KeyError, {"args": (k,)}))
+                self.pdict_store(o, k, ABSENT)
+                return
             if is_sym(k):
                 keys = [kk for kk in o.d if isinstance(kk, int) and not isinstance(kk, bool)]
                 for kk in keys:
@@ -1465,6 +1558,72 @@ class Interp:
         if h:
             return
         raise Unsupported("del item on %r" % (type(o).__name__,))
+
+
+    # ------------------------------------------------------------------ opaque list / map helpers
+    def value_key(self, x):
+        """stable key of a value for memoising opaque predicates"""
+        if isinstance(x, (SInt, SBool)):
+            return ("t", x.t.sexpr())
+        if isinstance(x, (int, str, bool)) or x is None:
+            return ("c", x)
+        if isinstance(x, BoundMethod):
+            return ("bm", self.value_key(x.self_), self.value_key(x.func))
+        if isinstance(x, FuncVal):
+            return ("f", x.fd.module, x.fd.qualname)
+        if isinstance(x, Builtin):
+            return ("b", x.name)
+        if isinstance(x, SObj):
+            return ("o", x.name or x.oid)
+        raise Unsupported("opaque predicate over %r" % (type(x).__name__,))
+
+    def opaque_contains(self, base, x):
+        """the uninterpreted fact `x in base` (same symbol for code and spec)"""
+        memo = self.ctx.__dict__.setdefault("_opaque", {})
+        k = ("contains", base.name, self.value_key(x))
+        if k not in memo:
+            memo[k] = SBool(z3.Bool("contains(%s,%s)" % (base.name, k[2])))
+            # a member implies a non-empty list
+            self.ctx.assume(Or(Not(memo[k]), compare(">", base.length, 0)))
+        return memo[k]
+
+    def opaque_remove_first(self, base, x):
+        memo = self.ctx.__dict__.setdefault("_opaque", {})
+        k = ("remove_first", base.name, self.value_key(x))
+        if k not in memo:
+            memo[k] = PBase("remove_first(%s,%s)" % (base.name, k[2]), binop("-", base.length, 1))
+        return memo[k]
+
+    def pdict_lookup(self, o, k):
+        """value bound to key k in an opaque-based dict, or ABSENT (forks as needed)"""
+        if not is_intlike(k):
+            if k in o.d:
+                return o.d[k]
+            raise Unsupported("non-integer key on opaque dict")
+        for kk, vv in reversed(o.sym):
+            same = compare("==", k, kk)
+            if same is True or (same is not False and self.ctx.branch(same.t)):
+                return vv
+        for kk, vv in o.d.items():
+            if isinstance(kk, int) and truth(compare("==", k, kk)):
+                return vv
+        memo = self.ctx.__dict__.setdefault("_opaque", {})
+        key = ("has", o.base, self.value_key(k))
+        if key not in memo:
+            memo[key] = SBool(z3.Bool("has(%s,%s)" % (o.base, key[2])))
+        if not self.ctx.branch(memo[key].t):
+            return ABSENT
+        vkey = ("val", o.base, self.value_key(k))
+        if vkey not in memo:
+            memo[vkey] = o.valfactory(self, "%s[%s]" % (o.base, key[2][1]))
+        return memo[vkey]
+
+    def pdict_store(self, o, k, v):
+        for i, (kk, vv) in enumerate(o.sym):
+            if compare("==", k, kk) is True:
+                o.sym[i] = (kk, v)
+                return
+        o.sym.append((k, v))
 
 
 class _IterVal:
